@@ -237,6 +237,33 @@ StepMineFailed(e) ==
   /\ IF "C12" \in Focus THEN Out("C12:miner_cannot_assemble_a_candidate_from_its_head_and_the_pending_transactions") /\ done' = TRUE /\ l' = l
      ELSE /\ l' = l + 1 /\ done' = (l + 1 > Len(Ev)) /\ ((l + 1 > Len(Ev)) => Out("ok"))
 
+(* ---- the node process dies and the program is started again on the same store (read_chain_from_disk, NetworkingThread start-up) ---- *)
+(* What is only in memory is gone: the write buffer, the pending pool, the connections (the peers connect again).  The chain state is rebuilt  *)
+(* from the store.  P: nothing enters the chain state that had not been accepted before (a rejected block that reached the disk would), the     *)
+(* restarted head is of the greatest height among the blocks served; M: the blocks served are the rows the store model holds.                    *)
+StepRestart(e) ==
+  LET p == e.post
+      served == SetOf(p.served)
+      KeepS == served \cap DOMAIN blocks
+      Restrict(fn) == [x \in KeepS |-> fn[x]]
+      r == IF KeepS = DOMAIN blocks THEN [CSV EXCEPT !.head = IF p.head \in KeepS THEN p.head ELSE CSV.head]
+           ELSE [blocks |-> Restrict(blocks), order |-> SelectSeq(order, LAMBDA x : x \in KeepS), utxo |-> Restrict(utxo),
+                 byHeight |-> Restrict(byHeight), tips |-> {x \in KeepS : \A y \in KeepS : blocks[y].parent # x},
+                 head |-> IF p.head \in KeepS THEN p.head ELSE head]
+      c == IF Focus \cap {"C08", "C09", "C12", "C13", "C04"} = {} THEN ""
+           ELSE IF served \ DOMAIN blocks # {} THEN "C09:block_that_was_never_accepted_is_in_the_chain_state_after_a_restart"
+           ELSE IF KeepS = {} THEN "C08:restarted_node_has_no_chain_state"
+           ELSE IF p.head \notin KeepS \/ (\E x \in KeepS : blocks[x].height > blocks[p.head].height) THEN "C08:restarted_head_is_not_of_the_greatest_height"
+           ELSE IF Len(p.pool) # 0 THEN "C13:pending_transaction_survived_a_restart_without_being_submitted_again"
+           ELSE ""
+  IN /\ UNCHANGED << tid, miner, txd, arr, arrOrd, chainT, locT, outT, inT >>
+     /\ SetCS(r) /\ lastValid' = r /\ unval' = {}
+     /\ pool' = << >> /\ buffer' = << >> /\ txnOpen' = FALSE
+     /\ active' = SetOf(p.open) /\ outbox' = outbox
+     /\ DriftIf(served # {x \in S!Ids(chainT) : x \in DOMAIN blocks}, "blocks served after a restart are not the rows of the Store model")
+     /\ IF c # "" THEN Out(c) /\ done' = TRUE /\ l' = l
+        ELSE /\ l' = l + 1 /\ done' = (l + 1 > Len(Ev)) /\ ((l + 1 > Len(Ev)) => Out("ok"))
+
 TInit == /\ tid \in 1..Len(Traces) /\ l = 1 /\ done = FALSE
          /\ NInit(ToBlk(Traces[tid].genesis), SetOf(Traces[tid].peers))
          /\ txd = [x \in {} |-> 0] /\ unval = {}
@@ -247,5 +274,6 @@ TNext == /\ ~done /\ l <= Len(Ev)
               [] e.op = "tx" -> StepTx(e)
               [] e.op = "mine" -> StepMine(e)
               [] e.op = "mine_failed" -> StepMineFailed(e)
+              [] e.op = "restart" -> StepRestart(e)
 TSpec == TInit /\ [][TNext]_tv
 =============================================================================
